@@ -135,6 +135,14 @@ pub fn outcome_into(o: SuccessfulOutcome) -> (r: DeliveryState)
 { match o { SuccessfulOutcome::Declared(d) => DeliveryState::Declared(d), SuccessfulOutcome::Accepted(a) => DeliveryState::Accepted(a) } }
 pub fn txn_rejection(e: TransactionError) -> (r: TxnRejection) ensures r.condition == e { TxnRejection { condition: e } }
 
+/// Delivery<ControlMessageBody> (link/delivery.rs): the decoded control message and the delivery it arrived as
+pub enum ControlMessageBody { Declare(Declare), Discharge(Discharge) }
+pub struct DeliveryS { pub body: ControlMessageBody, pub info: DeliveryInfo }
+impl DeliveryS {
+    pub fn body(&self) -> (r: &ControlMessageBody) ensures *r == self.body { &self.body }
+    #[verifier::external_body]
+    pub fn into_info(self) -> (r: DeliveryInfo) ensures r == self.info { unimplemented!() }
+}
 pub struct TxnCoordinator { pub inner: RecvInner, pub txn_ids: HashSet }
 
 impl TxnCoordinator {
@@ -186,6 +194,25 @@ impl TxnCoordinator {
         result is Err && result->Err_0 is TransactionError && r is Continue ==> final(self).inner.disposed@ == old(self).inner.disposed@.push((delivery_info, Some(true),
             DeliveryState::Rejected(Rejected { error: Some(TxnRejection { condition: result->Err_0->TransactionError_0 }) }))),                                // [C18.coordinator.rejection]
         final(self).inner.disposed@.len() <= old(self).inner.disposed@.len() + 1,
+        final(self).inner.disposed@.len() == old(self).inner.disposed@.len() + 1 ==> final(self).inner.disposed@.last().0 == delivery_info,       // [C18.coordinator.answer-names-the-request] whatever the answer is, it is the answer to the delivery it was asked for
+//@@ end
+
+//@@ fn file=fe2o3-amqp/src/transaction/coordinator.rs impl=`impl TxnCoordinator` name=on_delivery
+//@@ blockarms
+//@@ param delivery : DeliveryS
+//@@ subst `.map(SuccessfulOutcome::Declared)` => `.map(|d: Declared| -> (o: SuccessfulOutcome) ensures o == SuccessfulOutcome::Declared(d) { SuccessfulOutcome::Declared(d) })` rule=R18
+//@@ subst `.map(SuccessfulOutcome::Accepted)` => `.map(|a: Accepted| -> (o: SuccessfulOutcome) ensures o == SuccessfulOutcome::Accepted(a) { SuccessfulOutcome::Accepted(a) })` rule=R18
+//@@ subst `let delivery_info: DeliveryInfo = delivery.into();` => `let delivery_info: DeliveryInfo = delivery.into_info();` rule=R16
+//@@ spec
+    ensures
+        final(self).inner.disposed@.len() <= old(self).inner.disposed@.len() + 1,
+        final(self).inner.disposed@.len() == old(self).inner.disposed@.len() + 1 ==> final(self).inner.disposed@.last().0 == delivery.info,       // [C18.coordinator.answer-names-the-request] the outcome the coordinator reports is reported for THIS control message (its delivery), not for another
+        (match delivery.body {
+            ControlMessageBody::Declare(declare) => declare.global_id is None ==> final(self).inner.ctl.reqs@ == old(self).inner.ctl.reqs@.push(SessReq::Allocate),       // [C18.coordinator.declare-allocates] a declare asks the session for a new transaction
+            ControlMessageBody::Discharge(discharge) => old(self).txn_ids@.contains(discharge.txn_id)
+                ==> final(self).inner.ctl.reqs@ == old(self).inner.ctl.reqs@.push(if discharge.fail == Some(true) { SessReq::Rollback(discharge.txn_id) } else { SessReq::Commit(discharge.txn_id) })
+                    && final(self).txn_ids@ == old(self).txn_ids@.remove(discharge.txn_id),       // [C18.coordinator.discharge-dispatched] a discharge commits or rolls back THAT transaction, once
+        }),
 //@@ end
 
 //@@ fn file=fe2o3-amqp/src/transaction/coordinator.rs impl=`impl Drop for TxnCoordinator` name=drop
